@@ -52,8 +52,8 @@ def isCompleteMessage (hl : Nat) (data : Bytes) (t : Nat) : Outcome Bool :=
       let fragLen ← idx24 data 9
       .ok (decide (fragOff = 0 ∧ fragLen = bodyLen ∧ data.length - hl = bodyLen))
 
-/-- the guard at the top of an unmarshal: `if !dtlcpIsCompleteMessage(data, t) { return false }` -/
-def guard {α : Type} (c : Codes) (t : Nat) (data : Bytes) (k : Outcome α) : Outcome α :=
+/-- the guardD at the top of an unmarshal: `if !dtlcpIsCompleteMessage(data, t) { return false }` -/
+def guardD {α : Type} (c : Codes) (t : Nat) (data : Bytes) (k : Outcome α) : Outcome α :=
   guardWith (c.complete.contains t) (isCompleteMessage c.hl data t) k
 
 /-- `m.messageSeq = uint16(data[4])<<8 | uint16(data[5])` … of the hand-indexed unmarshals -/
@@ -73,7 +73,7 @@ def encFinished (c : Codes) (h : DHdr) (m : Blob) : Option Bytes :=
 def padTo (n : Nat) (b : Bytes) : Bytes := (b ++ List.replicate n 0).take n
 
 def decFinished (c : Codes) (data : Bytes) : Outcome (DHdr × Blob) :=
-  guard c c.tFinished data <|
+  guardD c c.tFinished data <|
   match unmarshalHeader data with
   | none => .reject
   | some (t, bodyLen, h, body) =>
@@ -86,7 +86,7 @@ def encCertificateVerify (c : Codes) (h : DHdr) (m : Blob) : Option Bytes :=
   some (header c.tCertificateVerify (2 + m.data.length) h ++ be16 m.data.length ++ m.data)
 
 def decCertificateVerify (c : Codes) (data : Bytes) : Outcome (DHdr × Blob) :=
-  guard c c.tCertificateVerify data <|
+  guardD c c.tCertificateVerify data <|
   match unmarshalHeader data with
   | none => .reject
   | some (t, _, h, body) =>
@@ -100,7 +100,7 @@ def encHelloVerifyRequest (c : Codes) (h : DHdr) (m : HelloVerifyRequest) : Opti
   some (header c.tHelloVerifyRequest (3 + m.cookie.length) h ++ m.vers.bytes ++ [u8 m.cookie.length] ++ m.cookie)
 
 def decHelloVerifyRequest (c : Codes) (data : Bytes) : Outcome (DHdr × HelloVerifyRequest) :=
-  guard c c.tHelloVerifyRequest data <|
+  guardD c c.tHelloVerifyRequest data <|
   match unmarshalHeader data with
   | none => .reject
   | some (t, _, h, body) =>
@@ -119,7 +119,7 @@ def encClientHello (c : Codes) (h : DHdr) (m : ClientHello) : Option Bytes :=
   | some body => some (header c.tClientHello body.length h ++ body)
 
 def decClientHello (c : Codes) (data : Bytes) : Outcome (DHdr × ClientHello) :=
-  guard c c.tClientHello data <|
+  guardD c c.tClientHello data <|
   match unmarshalHeader data with
   | none => .reject
   | some (t, _, h, body) =>
@@ -134,7 +134,7 @@ def encServerHello (c : Codes) (h : DHdr) (m : ServerHello) : Option Bytes :=
   | some body => some (header c.tServerHello body.length h ++ body)
 
 def decServerHello (c : Codes) (data : Bytes) : Outcome (DHdr × ServerHello) :=
-  guard c c.tServerHello data <|
+  guardD c c.tServerHello data <|
   match unmarshalHeader data with
   | none => .reject
   | some (t, _, h, body) =>
@@ -150,7 +150,7 @@ def encServerHelloDone (c : Codes) (h : DHdr) : Option Bytes :=
   some (u8 c.tServerHelloDone :: [0, 0, 0] ++ h.seq.bytes ++ [0, 0, 0, 0, 0, 0])
 
 def decServerHelloDone (c : Codes) (data : Bytes) : Outcome (DHdr × Unit) :=
-  guard c c.tServerHelloDone data <|
+  guardD c c.tServerHelloDone data <|
   if data.length < c.hl then .reject else do
     let h ← hdrFields data
     let bodyLen ← idx24 data 1
@@ -162,14 +162,14 @@ def encKeyMsg (t : Nat) (h : DHdr) (m : Blob) : Option Bytes :=
   some (header t m.data.length h ++ m.data)
 
 def decServerKeyExchange (c : Codes) (data : Bytes) : Outcome (DHdr × Blob) :=
-  guard c c.tServerKeyExchange data <|
+  guardD c c.tServerKeyExchange data <|
   if data.length < c.hl then .reject else do
     let h ← hdrFields data
     let k ← sliceFrom data c.hl        -- make(len(data)-12) + copy
     pure (h, ⟨k⟩)
 
 def decClientKeyExchange (c : Codes) (data : Bytes) : Outcome (DHdr × Blob) :=
-  guard c c.tClientKeyExchange data <|
+  guardD c c.tClientKeyExchange data <|
   if data.length < c.hl then .reject else do
     let h ← hdrFields data
     let l ← idx24 data 1
@@ -182,7 +182,7 @@ def encCertificate (c : Codes) (h : DHdr) (m : Certificate) : Option Bytes :=
   some (header c.tCertificate body.length h ++ body)
 
 def decCertificate (c : Codes) (data : Bytes) : Outcome (DHdr × Certificate) :=
-  guard c c.tCertificate data <|
+  guardD c c.tCertificate data <|
   if data.length < c.hl + 3 then .reject else do
     let h ← hdrFields data
     let m ← decCertificateAt c.hl data
@@ -193,7 +193,7 @@ def encCertificateRequest (c : Codes) (h : DHdr) (m : CertificateRequest) : Opti
   some (header c.tCertificateRequest body.length h ++ body)
 
 def decCertificateRequest (c : Codes) (data : Bytes) : Outcome (DHdr × CertificateRequest) :=
-  guard c c.tCertificateRequest data <|
+  guardD c c.tCertificateRequest data <|
   if data.length < c.hl + 1 then .reject else do
     let h ← hdrFields data
     let m ← decCertificateRequestAt c.hl data
